@@ -447,5 +447,14 @@ def rule_after_head(ctx):
     rules_bodies.rule_c08_completion(ctx)
 
 
-RULES = [rule_typestate, rule_edges, rule_selectors, rule_after_head, rule_readiness, rule_inventory]
+def rule_body_sent_premise(ctx):
+    """`SendBody may be left only when the body is complete`: the readiness gate reads the body writer's finished flag
+    (R09.3); that the flag is truthful - set exactly when the chunked terminator was written in full (R03.2) and exactly
+    when the announced length is used up (R04.2/R04.3) - is C03's and C04's table, shared here"""
+    from . import rules_c03, rules_bodies
+    rules_c03.rule_tables(ctx)
+    rules_bodies.rule_c04_write(ctx)
+
+
+RULES = [rule_typestate, rule_edges, rule_selectors, rule_after_head, rule_readiness, rule_inventory, rule_body_sent_premise]
 THOROUGH_RULES = [rule_witnesses]
